@@ -81,7 +81,14 @@ func verifHarness_C10_reuse(param int) {
 		// every other slot of the cache block is owned by some other connection
 		p.opcache.first = nil
 	}
-	// A goes away
+	// A goes away. When close(2) is issued on its descriptor (from then on the number can be
+	// re-issued to another connection) the poller must be unable to dispatch through A's slot
+	// any more: the slot has been given up (Free waits for the poller's token).
+	verifCloseHook = func(fd int) {
+		if fd == 7 {
+			verifAssert(opA.isUnused(), "C10/descriptor-released-while-the-poller-may-still-dispatch-through-its-slot")
+		}
+	}
 	switch closeMode {
 	case 1:
 		if opA.do() {
@@ -106,6 +113,7 @@ func verifHarness_C10_reuse(param int) {
 		for verifRunPending() {
 		}
 	}
+	verifCloseHook = nil
 	verifAssert(opA.isUnused(), "C10/closed-connection-keeps-its-slot")
 	if freeFirst {
 		p.opcache.free()
@@ -152,4 +160,58 @@ func verifHarness_C10_reuse(param int) {
 	verifAssert(opB.do(), "C10/other-connection-ignored-by-poller")
 	opB.done()
 	verifReach("end")
+}
+
+// The same history with the stale call running concurrently with the poller (partial-order):
+// A is closed, its slot has been recycled and re-issued to B; a goroutine that still holds A
+// calls Release / Close / Len on it while the poller dispatches an event for B. The poller
+// must get B's slot token (an event skipped because somebody else held the token is lost for
+// edge-triggered registrations), and B stays untouched.
+//
+//verif:po
+//verif:bounds 2 connections, B owns A's recycled slot; 1 stale call (Release, Close or Len) on A || 1 poller dispatch on B
+//verif:param 0 2
+//verif:loop 40
+//verif:poloop 3
+//verif:potimeout 300
+func verifHarness_C10_stalepo(kind int) {
+	verifK = &verifKMon{}
+	verifB = &verifBMon{}
+	runner_RunTask_set()
+	pollmanager = newManager(1)
+	a := verifNewConnOn(7, nil)
+	opA := a.operator
+	p := opA.poll.(*defaultPoll)
+	// every other slot of the cache block is owned by some other connection
+	p.opcache.first = nil
+	a.Close()
+	for verifRunPending() {
+	}
+	p.opcache.free()
+	b := verifNewConnOn(7, verifHandlerB)
+	opB := b.operator
+	verifAssume(opB == opA)
+	verifThread("stale", func() {
+		switch kind {
+		case 0:
+			a.Release()
+		case 1:
+			a.Close()
+		case 2:
+			_ = a.Len()
+		}
+		verifReach("stale-done")
+	})
+	verifThread("poller", func() {
+		ok := opB.do()
+		verifAssert(ok, "C10/poller-could-not-take-the-slot-token-of-another-connection-during-a-stale-call")
+		if ok {
+			opB.done()
+		}
+		verifReach("dispatched")
+	})
+	verifFinal("quiescent", func() {
+		verifAssert(b.IsActive(), "C10/stale-call-closed-other-connection")
+		verifAssert(atomic.LoadInt32(&opB.state) == 1, "C10/stale-call-changed-other-connections-slot-token")
+	})
 }
